@@ -349,8 +349,8 @@ pub const SUBS: &[Sub] = &[
 pub fn run(ctx: &Ctx) {
     run_regress(ctx, SUBS);
     drive_enum(ctx, &SUBS[0], 9 * 2 * 2 * 3 * 2 * 3 * 3);
-    drive_random(ctx, &SUBS[1], ctx.n(60_000, 3_000_000), 600);
-    drive_random(ctx, &SUBS[2], ctx.n(5_000, 200_000), 1200);
+    drive_random(ctx, &SUBS[1], ctx.n(60_000, 30_000_000), 600);
+    drive_random(ctx, &SUBS[2], ctx.n(1_000, 150_000), 1200);
 }
 
 pub fn finish(ctx: &Ctx) -> i32 {
